@@ -12,6 +12,7 @@
 #include "nanoisa/nvm_format.h"
 #include "nanoisa/verifier.h"
 #include "nanovm/vm.h"
+#include "nanovm/vm_ffi.h"
 #include "nanovm/heap.h"
 #include <malloc.h>
 
@@ -169,7 +170,18 @@ static void do_run(char *arg) {
     if (!m) { puts("loaderr"); return; }
     NvmVerifyResult vr = nvm_verify(m);
     if (!vr.ok) { puts("verifyfail"); nvm_module_free(m); return; }
-    if (m->import_count > 0) { puts("has-imports"); nvm_module_free(m); return; }
+    /* imports are run only when every one names a function of the VM's own runtime (empty module name, "vm_" prefix):
+     * the builtins that the code generator implements as extern calls */
+    if (m->import_count > 0 && !getenv("VM_PROBE_RUN_VM_EXTERNS")) { puts("has-imports"); nvm_module_free(m); return; }
+    for (uint32_t ii = 0; ii < m->import_count; ii++) {
+        const char *mn = nvm_get_string(m, m->imports[ii].module_name_idx);
+        const char *fn = nvm_get_string(m, m->imports[ii].function_name_idx);
+        if (!mn || mn[0] != 0 || !fn || strncmp(fn, "vm_", 3) != 0) { puts("has-imports"); nvm_module_free(m); return; }
+    }
+    if (m->import_count > 0) {
+        static int ffi_ready = 0;
+        if (!ffi_ready) { vm_ffi_init(); ffi_ready = 1; }
+    }
 
     reg_n = 0; next_id = 0; double_free = 0; dangling_seen = 0;
     vm_verif_alloc_hook = on_alloc; vm_verif_free_hook = on_free;
